@@ -342,11 +342,23 @@ theorem concatenate_spec (first : RSys) (rest : List RSys) (hn : first.keys.Nodu
     ∃ sum dups, concatenate (first :: rest) = some (sum, dups) ∧
       (sum, dups) = rest.foldl concatSpecStep (first, ⟨[], []⟩) ∧
       (sum.rxns, dups.rxns) = rest.foldl concatRxns (first.rxns, []) ∧
+      -- what a user needs: nothing is lost or invented, the first system comes first, every skipped reaction has a
+      -- stoichiometric twin in the sum
+      (sum.rxns ++ dups.rxns).Perm ((first :: rest).flatMap (·.rxns)) ∧
+      first.rxns <+: sum.rxns ∧
+      (∀ d ∈ dups.rxns, ∃ r ∈ sum.rxns, d.sameStoich r = true) ∧
       sum.keys.Nodup ∧ first.keys <+: sum.keys ∧
       (rest = [] → sum = first ∧ dups = ⟨[], []⟩) ∧ concatenate [] = none := by
   obtain ⟨h1, h2, h3⟩ := foldl_concatStep_eq rest (first, ⟨[], []⟩) hn
-  refine ⟨_, _, rfl, h1, ?_, h2, h3, ?_, rfl⟩
-  · exact foldl_concatRxns_of_steps rest (first, ⟨[], []⟩)
+  have hr := foldl_concatRxns_of_steps rest (first, ⟨[], []⟩)
+  obtain ⟨p1, p2, p3⟩ := foldl_concatRxns_spec rest (first.rxns, [])
+  rw [← hr] at p1 p2 p3
+  refine ⟨_, _, rfl, h1, hr, ?_, p1, ?_, h2, h3, ?_, rfl⟩
+  · simpa using p2
+  · intro d hd
+    rcases p3 d hd with h | h
+    · simp at h
+    · exact h
   · intro h; subst h; exact ⟨rfl, rfl⟩
 
 /-! ## as_substance_index, __eq__ -/
@@ -452,6 +464,16 @@ theorem upper_bound_least (s : RSys) (init : List Rat) (bs : List (Option Rat))
       intro x hx
       obtain ⟨k, v, hkv, hk, _⟩ := (hmem x).mp hx
       exact hk (hall (k, v) hkv)
+
+/-- when does `upper_conc_bounds(init)` answer at all (exact arithmetic, i.e. `dtype=object`): exactly when `init` has one entry
+per substance, every substance has a composition, and no element is listed with a zero atom count (else: ValueError "Incorrect
+size" / AttributeError / ZeroDivisionError). So the two theorems about the bounds are not vacuous: they apply to every input of
+this shape. -/
+theorem upper_bound_ok_iff (s : RSys) (init : List Rat) (skip : List Nat) :
+    (∃ bs, upperConcBounds s init skip = .ok bs) ↔
+      init.length = s.ns ∧ (∀ kv ∈ s.substs, kv.2.comp.isSome = true) ∧
+      ∀ c ∈ compsOf s, ∀ kv ∈ c, kv.1 ≠ 0 → kv.2 ≠ 0 :=
+  upperConcBounds_ok_iff s init skip
 
 /-- "which no non-negative state with the same element totals exceeds": for physically meaningful compositions
 (non-negative atom counts), every non-negative state `c` having, for every element, the same total as the initial
@@ -659,6 +681,24 @@ example :
     categorize ⟨[e], subs⟩ [.substanceKeys, .duplicate, .duplicateNames] = .ok ⟨[], [], [], ["Q"]⟩ ∧
     (e.asReactions.toOption.map fun p => p.2.inactProd) = some [("S", 1)] ∧
     categorize ⟨[{ e with paramB := none }], subs⟩ [] = .error (.expand .rateNeeded) := by
+  decide
+
+/-- concatenate: the second system repeats A→B (other parameter) and brings B→C -/
+example :
+    let r1 : Rxn := { reac := [("A", 1)], prod := [("B", 1)], param := some 1 }
+    let r1' : Rxn := { reac := [("A", 1)], prod := [("B", 1)], param := some 7 }
+    let r2 : Rxn := { reac := [("B", 1)], prod := [("C", 1)] }
+    let S := fun (ks : List String) => ks.map fun k => (k, ({ name := k } : Subst))
+    concatenate [⟨[r1], S ["A", "B"]⟩, ⟨[r1', r2], S ["B", "C", "A"]⟩] =
+      some (⟨[r1, r2], S ["A", "B", "C"]⟩, ⟨[r1'], S ["B", "A"]⟩) := by
+  decide
+
+/-- constructor with `missing_substances_from_keys=True` (part 5 of `make_full_spec`) and the refusal of a negative total -/
+example :
+    let r : Rxn := { reac := [("A", 1)], prod := [("B", 1)] }
+    (RSys.makeFull [r] (.names ["Z", "A"]) (some [.substanceKeys]) none none true).toOption.map (·.keys) = some ["Z", "A", "B"] ∧
+    categorizeSigned [SRxn.mk [("A", 1)] [("B", 1), ("C", -2)] [] [] none none none false] [("C", { name := "C" })] [] =
+      .error .negative := by
   decide
 
 /-- bounds for 2 H2 + O2 ⇌ 2 H2O from (2, 1, 0): H2 ≤ min(4/2) , O2 ≤ 2/2, H2O ≤ min(4/2, 2/1); the state (0, 0, 2)
